@@ -61,6 +61,11 @@ for _i, _t, _n in [
           "write_ht ignored the result of every hash-table page write.", "Listed functions only; hangs and the beatree/rollback error paths outside."),
   ("C17", "Bitbox side: before the switch-over only the WAL is written (no HT write, no WAL truncation) - every control path of the pre-meta functions.",
           "Beatree allocation discipline and seglog pruning outside."),
+  ("C20", "The in-process half of directory exclusivity as an event order on every control path: store::create and Store::open hold the advisory lock "
+          "(Flock::lock returned Ok) before any database file is created, opened, read or written and before the I/O pool starts; Flock::lock returns Ok only "
+          "on the success arm of try_lock_exclusive; Drop for Shared shuts the I/O pool down (channel closed, workers joined) before the lock is released.",
+          "The kernel's flock semantics, process death, the documented exists/empty TOCTOU before the lock on creation, and writers that bypass the I/O pool are outside. "
+          "Replays: strace order of flock/openat, second open from a thread and a child process, completions held back across drop(handle)."),
 ]:
     CLAIMS[_i] = dict(cat="model_checking", engine="P", tech=PSMT, ref="DESIGN.md §4 " + _i, text=_t,
                       note=_n + " Event recognition by callee name + source text under the MIR span; paths <= 120 basic blocks.")
@@ -72,7 +77,6 @@ NA = {
  "C11": "Overlay chains are imbl maps, HashMaps with random state, Arc/Weak graphs and atomics plus the whole merkle stack; out of reach of the available engines.",
  "C15": "Thread interleavings of parking_lot locks/condvars; Kani does not model concurrency and no SMT encoding of the locks is within reach.",
  "C19": "Needs an accounting observer over whole histories (free-list pages, bump pointers, bucket counters across syncs); single-step pieces do not decide it.",
- "C20": "Mechanism is an OS advisory lock (flock via libc FFI) and process lifetime; no code to execute symbolically.",
 }
 props = [json.loads(l) for l in open("/verif/properties.jsonl")]
 checks, na = [], []
